@@ -512,6 +512,7 @@ def glob_yield_sound(ex):
 contract(Contract(
     target=M + ":FileResolver._expand_glob",
     props=["C17"],
+    assumes=['pathlib: Path.glob / relative_to / parts / name / is_file as uninterpreted functions', 'only soundness of the filters is discharged (completeness and the glob-root computation: bounded reference walk)'],
     params={"pattern": "str"},
     self_cls="FileResolver",
     setup=glob_setup,
